@@ -176,7 +176,7 @@ def generate(tier, seed):
     n_rand = 40 if tier == "quick" else 1200
     for k in range(n_rand):
         cases.append({"kind": "rand", "k": k, "n": 500})
-    for k in range(6 if tier == "quick" else 200):
+    for k in range(16 if tier == "quick" else 300):
         cases.append({"kind": "disk", "k": k})
     return cases
 
@@ -261,7 +261,8 @@ def run_disk(case, ctx, res):
                 continue
             data, exp, desc = made
             eol = EOLS[desc["eol"]].encode()
-            pos = rng.choice(["start", "inside", "after", "after+snippet", "unparseable", "start+snippet"])
+            pos = rng.choice(["start", "inside", "after", "after+snippet", "unparseable", "start+snippet", "after+snippet@boundary",
+                              "after+snippet@boundary"])
             desc = dict(desc, pos=pos)
             filler_line = b"x = 'filler filler filler filler filler filler filler'" + eol
             if pos == "start":
@@ -275,6 +276,20 @@ def run_disk(case, ctx, res):
                 exp = {"lic": set(), "cop": set(), "con": set()}
             elif pos == "after+snippet":
                 blob = b"# SPDX-SnippetBegin" + eol + filler_line * 90 + data + b"# SPDX-SnippetEnd" + eol
+            elif pos == "after+snippet@boundary":
+                # the marker straddles a typical buffer boundary (multiples of 512 .. 64 KiB): it is in the file all the same
+                block = rng.choice([4096, 4096, 4096, 8192, 1024, 512, 2048, 16384, 65536, 128 * 64])
+                mult = rng.randint(1, 3)
+                cut = rng.randint(1, 16)
+                lead = filler_line * 90
+                target = max(block * mult - cut, len(lead) + 2)
+                while target < len(lead) + 2:
+                    target += block
+                pad_len = target - len(lead) - 2
+                blob = lead + b"#" + b"p" * max(0, pad_len - len(eol)) + eol + b"# SPDX-SnippetBegin" + eol + data + b"# SPDX-SnippetEnd" + eol
+                # recompute so that the marker really starts `cut` bytes before the boundary
+                idx = blob.find(b"SPDX-SnippetBegin")
+                desc = dict(desc, marker_offset=idx)
             elif pos == "start+snippet":
                 blob = data + filler_line * 90 + b"# SPDX-SnippetBegin" + eol + b"# SPDX-SnippetEnd" + eol
             else:
@@ -299,7 +314,7 @@ def run_disk(case, ctx, res):
             got_c = {x["value"] for x in f["copyrights"]}
             if got_l != exp["lic"] or got_c != exp["cop"]:
                 key = classify(desc, "cop", got_c, exp["cop"], blob) if got_c != exp["cop"] else classify(desc, "lic", got_l, exp["lic"], blob)
-                if desc["pos"] in ("after", "after+snippet", "start+snippet", "unparseable") and not key.startswith(("lone-CR", "frame", "mirrored")):
+                if desc["pos"] in ("after", "after+snippet", "after+snippet@boundary", "start+snippet", "unparseable") and not key.startswith(("lone-CR", "frame", "mirrored")):
                     key = f"window:{desc['pos']}"
                 res.violation(key, f"lint --json reads licences {sorted(got_l)} copyrights {sorted(got_c)}; authored {sorted(exp['lic'])} / {sorted(exp['cop'])} ({desc})",
                               desc=desc, head=blob[:300].decode("utf-8", "replace"))
